@@ -564,6 +564,171 @@ def check_fs(ctx, case):
             safe_call(idx.close)
 
 
+# ---------------------------------------------------------------------------------------------------------------------
+# several adaptors alive in one process: revisions of one dataset (usually sharing one cache), lazy / explicit, views
+# ---------------------------------------------------------------------------------------------------------------------
+def gen_adaptors_case(rng):
+    """2-3 revisions of one dataset (a directory object at depth 1-2 plus 0-2 files next to it; a later revision rewrites,
+    drops and adds files), usually all stored in ONE object database as the revisions of a project are; per revision the lazy
+    index and the one listing the files explicitly; 3-7 adaptors, each over one of these indexes or over a view of it with
+    a random prefix-closed filter, created in a random order, either all up front or one at a time"""
+    dirkey = rng.choice([("data",), ("data", "sub"), ("d",), ("proj", "data")])
+    pool = [("g%d" % i,) for i in range(4)] + [("s", "g%d" % i) for i in range(3)] + [("s", "t", "g0",), ("t", "g1")]
+    outside = [("top0",), ("top1",), ("other", "f0")]
+    cur_dir = {r: "rev0-%d" % rng.randrange(1000) for r in rng.sample(pool, rng.randrange(1, 5))}
+    cur_out = {k: "rev0-out-%d" % rng.randrange(1000) for k in rng.sample(outside, rng.randrange(0, 3))}
+    revisions = []
+    for ri in range(rng.randrange(2, 4)):
+        if ri:
+            if rng.random() < 0.12:
+                pass                                           # a revision that changes nothing: same hashes, other index
+            else:
+                cur_dir = {r: (v if rng.random() < 0.35 else "rev%d-%d" % (ri, rng.randrange(1000))) for r, v in cur_dir.items()}
+                cur_out = {k: (v if rng.random() < 0.5 else "rev%d-out-%d" % (ri, rng.randrange(1000))) for k, v in cur_out.items()}
+                if len(cur_dir) > 1 and rng.random() < 0.3:
+                    del cur_dir[rng.choice(sorted(cur_dir))]
+                if rng.random() < 0.3:
+                    cur_dir.setdefault(rng.choice(pool), "rev%d-new-%d" % (ri, rng.randrange(1000)))
+        revisions.append({"dir": {"/".join(r): v for r, v in sorted(cur_dir.items())},
+                          "files": {"/".join(k): v for k, v in sorted(cur_out.items())}})
+    adaptors = []
+    for _ in range(rng.randrange(3, 8)):
+        ri = rng.randrange(len(revisions))
+        spec = {"rev": ri, "form": rng.choice(["lazy", "lazy", "explicit"]), "accept": None,
+                "index_first": rng.random() < 0.3}
+        if rng.random() < 0.45:
+            rev = revisions[ri]
+            keys = [dirkey + split(r) for r in rev["dir"]] + [split(k) for k in rev["files"]]
+            chosen = [k for k in keys if rng.random() < 0.5]
+            spec["accept"] = [list(a) for a in sorted({k[:i] for k in chosen for i in range(1, len(k) + 1)})]
+        adaptors.append(spec)
+    return {"adaptors_in_one_process": True, "dirkey": list(dirkey), "revisions": revisions, "adaptors": adaptors,
+            "shared_odb": rng.random() < 0.8, "sqlite": rng.random() < 0.3, "explicit_dirs": rng.random() < 0.5,
+            "create_all_first": rng.random() < 0.5}
+
+
+def check_adaptors(ctx, case):
+    """the adaptor clause of C17 with more than one adaptor in the process: whatever other adaptors exist, each one lists
+    exactly the files of the index / view it was built over, reports their hashes and serves the bytes storage holds"""
+    from dvc_data.fs import DataFileSystem
+    from dvc_data.hashfile.hash_info import HashInfo
+    from dvc_data.hashfile.meta import Meta
+    from dvc_data.index.index import DataIndex, DataIndexEntry, ObjectStorage
+    from dvc_data.index.view import DataIndexView
+
+    root = ctx.mkdtemp()
+    dirkey = tuple(case["dirkey"])
+    shared = stores.make_odb(os.path.join(root, "odb"), local=True)
+    revs = []
+    for ri, rev in enumerate(case["revisions"]):
+        odb = shared if case["shared_odb"] else stores.make_odb(os.path.join(root, "odb%d" % ri), local=True)
+        sub = {split(r): v.encode() for r, v in rev["dir"].items()}
+        out = {split(k): v.encode() for k, v in rev["files"].items()}
+        ents = {r: md5hex(c) for r, c in sub.items()}
+        for c in list(sub.values()) + list(out.values()):
+            stores.put_raw(odb.path, md5hex(c), c)
+        raw = gen.canonical_listing(ents)
+        toid = md5hex(raw) + ".dir"
+        stores.put_raw(odb.path, toid, raw)
+        content = {dirkey + r: c for r, c in sub.items()}
+        content.update(out)
+        revs.append({"odb": odb, "sub": sub, "out": out, "ents": ents, "toid": toid, "content": content})
+
+    indexes = {}
+
+    def index_of(ri, form):
+        if (ri, form) in indexes:
+            return indexes[(ri, form)]
+        rev = revs[ri]
+        idx = DataIndex.open(os.path.join(root, "rev%d-%s.db" % (ri, form))) if case["sqlite"] else DataIndex()
+        idx.storage_map.add_cache(ObjectStorage((), rev["odb"]))
+        dirs = {k[:i] for k in list(rev["out"]) + [dirkey] for i in range(1, len(k))}
+        for k, c in rev["out"].items():
+            idx[k] = DataIndexEntry(key=k, meta=Meta(), hash_info=HashInfo("md5", md5hex(c)))
+        if form == "lazy":
+            idx[dirkey] = DataIndexEntry(key=dirkey, meta=Meta(isdir=True), hash_info=HashInfo("md5", rev["toid"]))
+        else:
+            idx[dirkey] = DataIndexEntry(key=dirkey, meta=Meta(isdir=True), hash_info=HashInfo("md5", rev["toid"]), loaded=True)
+            for r, h in rev["ents"].items():
+                idx[dirkey + r] = DataIndexEntry(key=dirkey + r, meta=Meta(md5=h), hash_info=HashInfo("md5", h))
+                for i in range(1, len(r)):
+                    idx[dirkey + r[:i]] = DataIndexEntry(key=dirkey + r[:i], meta=Meta(isdir=True), loaded=True)
+        if case["explicit_dirs"]:
+            for d in sorted(dirs):
+                idx[d] = DataIndexEntry(key=d, meta=Meta(isdir=True), loaded=True)
+        indexes[(ri, form)] = idx
+        return idx
+
+    def target_of(spec):
+        idx = index_of(spec["rev"], spec["form"])
+        if spec["accept"] is None:
+            return idx
+        acc = {tuple(a) for a in spec["accept"]}
+        return DataIndexView(idx, lambda kk: kk in acc)
+
+    distinct = {(s["rev"], s["form"], None if s["accept"] is None else tuple(map(tuple, s["accept"]))) for s in case["adaptors"]}
+    ctx.case(case, nontrivial=len(distinct) >= 2)
+    ctx.count("family:several-adaptors")
+    ctx.count("several-adaptors-odb:%s" % ("shared" if case["shared_odb"] else "one-per-revision"))
+    ctx.count("several-adaptors-creation:%s" % ("all-up-front" if case["create_all_first"] else "one-at-a-time"))
+    sig = "several-adaptors-in-one-process"
+    path_of = lambda k: "/" + "/".join(k)  # noqa: E731
+
+    def examine(no, spec, target, dfs):
+        ctx.count("adaptor-over:%s-%s" % (spec["form"], "index" if spec["accept"] is None else "view"))
+        rev = revs[spec["rev"]]
+        acc = None if spec["accept"] is None else {tuple(a) for a in spec["accept"]}
+        exp = {path_of(k): md5hex(c) for k, c in rev["content"].items() if acc is None or k in acc}
+        who = {"adaptor_no": no, "revision": spec["rev"], "form": spec["form"], "filter": spec["accept"]}
+
+        def own():
+            return {path_of(k): e.hash_info.value for k, e in target.iteritems() if not (e.meta and e.meta.isdir)}
+
+        ko = idx_files = None
+        if spec["index_first"]:
+            ko, idx_files = safe_call(own)
+        kf, got = safe_call(lambda: {p: i.get("md5") for p, i in dfs.find("/", detail=True).items()})
+        if not spec["index_first"]:
+            ko, idx_files = safe_call(own)
+        ctx.oracle(ko == "ok" and idx_files == exp, case,
+                   {**who, "why": "the index / view itself does not hold exactly the files of its revision that its filter accepts",
+                    "holds": idx_files, "expected": exp}, signature=sig)
+        ctx.oracle(kf == "ok" and got == exp, case,
+                   {**who, "why": "the adaptor's listing / hashes differ from the index (view) it was built over",
+                    "adaptor": got, "index": idx_files, "expected": exp}, signature=sig)
+        for p in ctx.rng.sample(sorted(exp), min(3, len(exp))):
+            data = rev["content"][tuple(p[1:].split("/"))]
+            kc, b = safe_call(lambda: dfs.cat_file(p))
+            ctx.oracle(kc == "ok" and b == data, case,
+                       {**who, "why": "the adaptor serves other bytes than storage holds for the entry of its own index", "path": p,
+                        "got": str(b)[:60], "expected": data.decode()}, signature=sig)
+            ki, inf = safe_call(lambda: dfs.info(p))
+            ctx.oracle(ki == "ok" and inf["type"] == "file" and inf.get("md5") == md5hex(data), case,
+                       {**who, "why": "adaptor metadata differs from the entry of its own index", "path": p, "info": str(inf)[:120]}, signature=sig)
+        if acc is None or dirkey in acc:
+            names = sorted({k[len(dirkey)] for k in rev["content"] if k[: len(dirkey)] == dirkey and len(k) > len(dirkey)
+                            and (acc is None or k[: len(dirkey) + 1] in acc)})
+            kl, ls = safe_call(lambda: sorted(os.path.basename(p.rstrip("/")) for p in dfs.ls(path_of(dirkey), detail=False)))
+            ctx.oracle(kl == "ok" and ls == names, case,
+                       {**who, "why": "the adaptor's listing of the directory differs from its own index (view)", "got": ls, "expected": names}, signature=sig)
+
+    try:
+        if case["create_all_first"]:
+            made = []
+            for spec in case["adaptors"]:
+                t = target_of(spec)
+                made.append((spec, t, DataFileSystem(t)))
+            for no, (spec, t, dfs) in enumerate(made):
+                examine(no, spec, t, dfs)
+        else:
+            for no, spec in enumerate(case["adaptors"]):
+                t = target_of(spec)
+                examine(no, spec, t, DataFileSystem(t))
+    finally:
+        for idx in indexes.values():
+            safe_call(idx.close)
+
+
 def run(ctx):
     ctx.rule = (
         "indexes mixing explicit files, explicit or implicit directories and 1-2 unloaded directory objects (nested listings, depth "
@@ -574,7 +739,12 @@ def run(ctx):
         "FileStorages (directory trees on disk) registered at keys of depth 0-2 with every path origin (prefix default / = key / "
         "partial / explicit ()), explicit files next to them, decoy files with the same names at the positions a shifted path "
         "would resolve to; lookup / iteration / listing / info against the explicitly expanded index with the same storages, "
-        "load() twice, diff on kinds and sizes, adaptor cat/info/ls/find against the bytes on disk"
+        "load() twice, diff on kinds and sizes, adaptor cat/info/ls/find against the bytes on disk. Third family (oracle only): "
+        "several adaptors alive in one process - 2-3 revisions of one dataset (a directory object at depth 1-2 and files next to "
+        "it; later revisions rewrite / drop / add files), in one shared object database (80%) or one per revision, each revision as "
+        "a lazy and as an explicitly expanded index (memory / SQLite); 3-7 adaptors over these indexes or over views of them with "
+        "random prefix-closed filters, created all up front or one at a time: every adaptor's find / info / cat / ls must show "
+        "exactly the files, hashes and bytes of the index or view it was built over"
     )
     ctx.assumptions = ["len() of an index before any access is not load-transparent and not part of the property"]
     root_key_cases(ctx)
@@ -582,6 +752,8 @@ def run(ctx):
         check(ctx, gen_case(ctx.rng))
     for _ in range(ctx.n(40, 400)):
         check_fs(ctx, gen_fs_case(ctx.rng))
+    for _ in range(ctx.n(40, 400)):
+        check_adaptors(ctx, gen_adaptors_case(ctx.rng))
 
 
 def search(ctx):
@@ -589,6 +761,8 @@ def search(ctx):
         check(ctx, gen_case(ctx.rng))
         if ctx.rng.random() < 0.3:
             check_fs(ctx, gen_fs_case(ctx.rng))
+        if ctx.rng.random() < 0.3:
+            check_adaptors(ctx, gen_adaptors_case(ctx.rng))
 
 
 def replay(ctx, payload):
